@@ -236,6 +236,36 @@ def sentences(g, rng, n_derived, n_mutated):
 
 NULLABLE_RE = {r"q?"}
 
+# `ws='...'` values that mix escape sequences with characters given literally (visit_rule_params keeps both since
+# "fix: a ws rule modifier written with an escape sequence no longer drops the characters given literally");
+# no quote and no literal backslash (it would start an escape sequence)
+MIXED_WS = [" \\t,", "\\n\t", "\\t ;", "\\r\\n~", ",\\n ", "\t\\n", " \\n\\t\r", "\\t.", ".\\n\\n", "\\r:", "~ \\t\\n"]
+
+
+def mix_ws(g, rng):
+    """Rewrite about half of the `ws=` modifiers (and give a few rules without modifiers one) as a mixed spelling;
+    returns the grammar and the literal characters that became whitespace somewhere."""
+    rules, lits = [], set()
+    for rule in g["rules"]:
+        p = rule.get("params") or {}
+        if ("ws" in p and rng.chance(0.5)) or (not p and rng.chance(0.05)):
+            v = rng.choice(MIXED_WS)
+            rule = dict(rule, params=dict(p, ws=v))
+            lits.update(c for c in re.sub(r"\\[nrt]| ", "", v) if c not in "\\")
+        rules.append(rule)
+    return dict(g, rules=rules), sorted(lits)
+
+
+def sprinkle(texts, lits, rng):
+    """one more text: a derived text with one of the literal whitespace characters put into a gap"""
+    cands = [t for t in texts if " " in t]
+    if not lits or not cands:
+        return texts
+    t = rng.choice(cands)
+    gaps = [i for i, c in enumerate(t) if c == " "]
+    i = rng.choice(gaps)
+    return texts + [t[:i + 1] + rng.choice(lits) + t[i + 1:]]
+
 
 def unord_elems(e):
     """elements of the unordered group `x#`"""
@@ -658,6 +688,10 @@ class Prop(Check):
             keep = 4 if tier == "quick" else 6
             if style == "broken":
                 g = break_grammar(g, r)
+            # last, so that the rest of the case is what it was before this pass existed (the texts do not depend on
+            # the `ws=` values): mixed spellings of `ws=` values + one text with a literal whitespace character in a gap
+            g, lits = mix_ws(g, r.fork("mixws"))
+            texts = sprinkle(texts, lits, r.fork("sprinkle"))
             yield {"gram": g, "cfg": cfg, "texts": texts, "keep": keep, "style": style}
 
     def impl(self, case):
